@@ -2,9 +2,9 @@ package chain
 
 import (
 	"bytes"
-	"math"
 	"crypto/ecdsa"
 	"fmt"
+	"math"
 	"math/big"
 	"sort"
 
@@ -55,48 +55,50 @@ type Op struct {
 
 // TxMeta is what the harness knows about a transaction it built (independently of the node).
 type TxMeta struct {
-	Op       Op
-	Bytes    []byte
-	Kind     string
-	Type     byte
-	Sender   types.Address   // address whose nonce/funds are used (multisig address for multisig)
-	Signers  []types.Address // keys that actually produced valid signatures
-	SigOK    bool            // harness believes the signature set authorises Sender
-	Nonce    uint64
-	GasCoin  uint64
-	GasPrice uint32
-	ChainOK  bool
-	Payload  int
-	Note     string
-	Data     interface{}
-	Issuer   *types.Address // check issuer for redeem
-	Check    *IssuedCheck   // the check a redeem op presents
-	ProofOK  bool           // redeem: proof made with the check's password for the sender's own address
-	SigMode  int            // signature fault actually applied (single-signature transactions only)
-	Code     uint32         // result code of this delivery (filled after DeliverTx)
-	FirstCode uint32        // for redeliveries: result code of the first delivery of these bytes
-	OrigKind string         // for redeliveries: kind of the original transaction
-	Dup      bool           // bytes identical to an earlier delivered tx
-	Malleated bool
-	HighS    bool    // single signature carries n-S (harness fault mode 2 or an odd number of S flips)
-	Reenc    bool    // bytes re-encoded non-canonically (length prefix / trailing byte)
-	Base     *TxMeta `json:"-"` // the harness-built transaction these bytes derive from (nil: itself)
-	Garbage  bool
+	Op          Op
+	Bytes       []byte
+	Kind        string
+	Type        byte
+	Sender      types.Address   // address whose nonce/funds are used (multisig address for multisig)
+	Signers     []types.Address // keys that actually produced valid signatures
+	SigOK       bool            // harness believes the signature set authorises Sender
+	Nonce       uint64
+	GasCoin     uint64
+	GasPrice    uint32
+	ChainOK     bool
+	Payload     int
+	Note        string
+	Data        interface{}
+	Issuer      *types.Address // check issuer for redeem
+	Check       *IssuedCheck   // the check a redeem op presents
+	ProofOK     bool           // redeem: proof made with the check's password for the sender's own address
+	ProofFor    *types.Address // redeem: address the proof was made for
+	ProofPassOK bool           // redeem: proof made with the right password (and the check itself is redeemable)
+	SigMode     int            // signature fault actually applied (single-signature transactions only)
+	Code        uint32         // result code of this delivery (filled after DeliverTx)
+	FirstCode   uint32         // for redeliveries: result code of the first delivery of these bytes
+	OrigKind    string         // for redeliveries: kind of the original transaction
+	Dup         bool           // bytes identical to an earlier delivered tx
+	Malleated   bool
+	HighS       bool    // single signature carries n-S (harness fault mode 2 or an odd number of S flips)
+	Reenc       bool    // bytes re-encoded non-canonically (length prefix / trailing byte)
+	Base        *TxMeta `json:"-"` // the harness-built transaction these bytes derive from (nil: itself)
+	Garbage     bool
 }
 
 // View is what the "clients" know when they build transactions for the next block.
 type View struct {
-	S        *Snap
-	Height   uint64 // height of the block being built
-	NAcct    int
-	Chain    types.ChainID
-	NonceAdd map[types.Address]uint64
-	MsEdit   map[types.Address]*types.Multisig // multisig definitions edited by accepted transactions of this block
-	Log      []*TxMeta // all delivered txs so far (for redelivery)
-	NVal     int
-	Issued   []*IssuedCheck
+	S               *Snap
+	Height          uint64 // height of the block being built
+	NAcct           int
+	Chain           types.ChainID
+	NonceAdd        map[types.Address]uint64
+	MsEdit          map[types.Address]*types.Multisig // multisig definitions edited by accepted transactions of this block
+	Log             []*TxMeta                         // all delivered txs so far (for redelivery)
+	NVal            int
+	Issued          []*IssuedCheck
 	DupAcceptedOnly bool // redeliver only transactions whose first delivery was accepted
-	addrIdx  map[types.Address]int
+	addrIdx         map[types.Address]int
 }
 
 // IssuedCheck is the harness's record of a check it issued.
@@ -923,6 +925,8 @@ func (v *View) Resolve(op Op) *TxMeta {
 		op.G = 0
 		m.Check = ic
 		m.ProofOK = pass == ic.Pass && proofFor == sender && !ic.LockBad
+		pf := proofFor
+		m.ProofFor, m.ProofPassOK = &pf, pass == ic.Pass && !ic.LockBad
 		m.Issuer = &Acct(ic.Issuer).Addr
 		typ, data = transaction.TypeRedeemCheck, transaction.RedeemCheckData{RawCheck: ic.Raw, Proof: MakeProof(pass, proofFor)}
 		m.GasCoin = ic.GasCoin
@@ -1012,6 +1016,10 @@ func (v *View) Resolve(op Op) *TxMeta {
 			key = Acct(mod(int64(op.A)+1, v.NAcct)).Priv
 			sender = crypto.PubkeyToAddress(key.PublicKey)
 			// nonce was computed for the actor, keep as is (probably wrong for the other key)
+			if m.ProofFor != nil {
+				// a check proof is bound to whoever really signs
+				m.ProofOK = m.ProofPassOK && *m.ProofFor == sender
+			}
 		}
 		if err := tx.Sign(key); err != nil {
 			panic(err)
